@@ -2,10 +2,13 @@ package props
 
 import (
 	"context"
+	"errors"
 	"fmt"
 	"net/http"
+	"os"
 	"sort"
 	"strings"
+	"time"
 
 	"google.golang.org/grpc"
 	"google.golang.org/grpc/codes"
@@ -19,6 +22,7 @@ import (
 
 	"larking.io/larking"
 
+	"verif/env"
 	"verif/explore"
 	"verif/ref/wire"
 	"verif/report"
@@ -31,13 +35,14 @@ func init() {
 }
 
 type c18Case struct {
-	Proto string `json:"proto"` // http-json http-proto grpc web ws
-	Shape string `json:"shape"` // unary cs ss bidi
-	Size  int    `json:"payload_size"`
-	Fail  bool   `json:"handler_fails"`
-	Icpt  string `json:"interceptor"` // none pass reply error short
-	Stats bool   `json:"stats"`
-	MD    bool   `json:"handler_sets_metadata"`
+	WriteFault int    `json:"response_write_fails_at,omitempty"` // > 0: the n-th Write on the ResponseWriter fails (and every later one)
+	Proto      string `json:"proto"`                             // http-json http-proto grpc web ws
+	Shape      string `json:"shape"`                             // unary cs ss bidi
+	Size       int    `json:"payload_size"`
+	Fail       bool   `json:"handler_fails"`
+	Icpt       string `json:"interceptor"` // none pass reply error short
+	Stats      bool   `json:"stats"`
+	MD         bool   `json:"handler_sets_metadata"`
 }
 
 type icptLog struct {
@@ -177,8 +182,12 @@ type c18Obs struct {
 }
 
 func (e *c18Env) call(tc *c18Case, icpt string, st bool) (obs c18Obs, lg hLog, il icptLog, sl statsLog, oracle, note string) {
-	m, impl, ilp, slp := e.mux(icpt, st)
+	mx, impl, ilp, slp := e.mux(icpt, st)
 	*ilp, *slp = icptLog{}, statsLog{}
+	var m http.Handler = mx
+	if tc.WriteFault > 0 {
+		m = faultMux{mx, tc.WriteFault}
+	}
 	herr := error(nil)
 	if tc.Fail {
 		herr = status.Error(codes.FailedPrecondition, "handler-failed")
@@ -499,6 +508,211 @@ func (e *c18Env) exec(tc *c18Case) (oracle, note string) {
 	return "", ""
 }
 
+// faultMux makes the n-th Write (and every later one) on the response fail, the way a
+// connection that went away does.
+type faultMux struct {
+	h http.Handler
+	n int
+}
+
+var errWriteFault = errors.New("write tcp 192.0.2.1:1: broken pipe")
+
+func (f faultMux) ServeHTTP(w http.ResponseWriter, r *http.Request) {
+	if rec, ok := w.(*env.Recorder); ok {
+		rec.FailWriteAt, rec.WriteErr = f.n, errWriteFault
+	}
+	f.h.ServeHTTP(w, r)
+}
+
+// execWriteFault: the response Write fails at position n. What the client sees is no longer
+// defined; what interceptors and the stats handler see still is: the handler chain runs exactly
+// once, Tag/InHeader/Begin come first and once, End comes last and exactly once, nothing panics.
+func (e *c18Env) execWriteFault(tc *c18Case) (oracle, note string, writes int) {
+	_, lg, il, sl, o, n := e.call(tc, tc.Icpt, tc.Stats)
+	if o != "" {
+		return o, n, 0
+	}
+	if lg.Calls > 1 {
+		return "handler-count", fmt.Sprintf("handler ran %d times", lg.Calls), 0
+	}
+	if tc.Icpt != "none" && il.unary+il.stream != 1 {
+		return "interceptor-count", fmt.Sprintf("unary interceptor ran %d times, stream interceptor %d times", il.unary, il.stream), 0
+	}
+	if tc.Stats {
+		ev := strings.Join(sl.events, " ")
+		if len(sl.events) < 4 || sl.events[0] != "Tag" || sl.events[1] != "InHeader" || sl.events[2] != "Begin" {
+			return "stats-sequence", "must start with Tag InHeader Begin: " + ev, 0
+		}
+		ends := 0
+		for i, x := range sl.events {
+			switch x {
+			case "End":
+				ends++
+				if i != len(sl.events)-1 {
+					return "stats-sequence", "End is not the last event: " + ev, 0
+				}
+			case "Tag", "InHeader", "Begin":
+				if i > 2 {
+					return "stats-sequence", x + " repeated: " + ev, 0
+				}
+			}
+		}
+		if ends != 1 {
+			return "stats-end-count", fmt.Sprintf("%d End events: %s", ends, ev), 0
+		}
+		// a reply whose SendMsg failed was not sent: one out-payload event per message the handler
+		// got a nil error for (streaming handlers see the failure themselves)
+		if (tc.Shape == "ss" || tc.Shape == "bidi" || tc.Shape == "get-ss") && lg.Calls == 1 && tc.Icpt != "error" && sl.out != lg.SendOK {
+			return "stats-outpayload-count", fmt.Sprintf("%d OutPayload events, %d SendMsg calls succeeded (errors: %v): %s", sl.out, lg.SendOK, lg.SendErrs, ev), 0
+		}
+	}
+	return "", "", 0
+}
+
+func c18WriteFaults(c *Ctx) {
+	r := c.Run
+	var cases []c18Case
+	for _, p := range []string{"http-json", "http-proto", "grpc", "web", "grpc-gzip", "web-gzip"} {
+		for _, sh := range []string{"unary", "cs", "ss", "bidi"} {
+			for _, fail := range []bool{false, true} {
+				for _, ic := range []string{"none", "pass", "error"} {
+					for _, sz := range []int{5, 5000} {
+						for k := 1; k <= 8; k++ {
+							cases = append(cases, c18Case{Proto: p, Shape: sh, Size: sz, Fail: fail, Icpt: ic, Stats: true, MD: k%2 == 0, WriteFault: k})
+						}
+					}
+				}
+			}
+		}
+	}
+	for _, sh := range []string{"get-ss", "raw", "up", "sel"} {
+		for k := 1; k <= 6; k++ {
+			cases = append(cases, c18Case{Proto: "http-json", Shape: sh, Size: 5000, Icpt: "pass", Stats: true, WriteFault: k})
+		}
+	}
+	envs := make([]*c18Env, explore.Workers)
+	explore.ParallelFor(len(cases), func() bool { return r.TooManyViolations() }, func(w, i int) {
+		if envs[w] == nil {
+			envs[w] = newC18Env()
+		}
+		tc := &cases[i]
+		oracle, note, _ := envs[w].execWriteFault(tc)
+		r.Eval(1)
+		if oracle != "" {
+			r.Outcome("FAIL:" + oracle)
+			r.Violation(report.Violation{Oracle: oracle, Key: fmt.Sprintf("%s write-fault-at=%d proto=%s shape=%s size=%d fail=%v icpt=%s md=%v", oracle, tc.WriteFault, tc.Proto, tc.Shape, tc.Size, tc.Fail, tc.Icpt, tc.MD), Case: *tc, Note: note})
+			return
+		}
+		r.Outcome("ok:write-fault:" + tc.Proto)
+		r.Distinct(fmt.Sprintf("%+v", *tc))
+	})
+}
+
+// c18EarlyExits: RPCs that stop outside the handler's ordinary return path - a request body that
+// does not decompress, a deadline that has passed before anything was sent, a WebSocket whose
+// close frame cannot be written. Whatever the client gets, a stats handler that was told an RPC
+// began is told exactly once that it ended (and never about an RPC that never began).
+func c18EarlyExits(c *Ctx) {
+	r := c.Run
+	e := newC18Env()
+	reqMsg := e.t.newReq("q", []byte("payload"), 3)
+	pb, _ := proto.Marshal(reqMsg)
+	js, _ := protojson.Marshal(reqMsg)
+	type probe struct {
+		name string
+		run  func(m http.Handler) serveResult
+	}
+	var probes []probe
+	for _, sh := range []string{"unary", "cs", "ss", "bidi"} {
+		sh := sh
+		route, full := shapeRoute[sh], "/vs.T/"+c18Method[sh]
+		for _, bad := range []struct {
+			name string
+			body []byte
+		}{{"garbage", []byte("this is not gzip")}, {"empty", nil}, {"cut-header", gzipBytes(js)[:5]}, {"cut-stream", gzipBytes(js)[:14]}} {
+			bad := bad
+			for _, ct := range []string{"application/json", "application/protobuf"} {
+				ct := ct
+				probes = append(probes, probe{fmt.Sprintf("http %s %s Content-Encoding:gzip body=%s", sh, ct, bad.name), func(m http.Handler) serveResult {
+					req := newPostRequest(route, http.Header{"Content-Type": {ct}, "Content-Encoding": {"gzip"}}, env.NewReader(env.Script{Data: bad.body}), -1)
+					return serveReq(m, req)
+				}})
+			}
+		}
+		for _, to := range []string{"1n", "1u"} {
+			to := to
+			probes = append(probes, probe{fmt.Sprintf("grpc %s grpc-timeout=%s", sh, to), func(m http.Handler) serveResult {
+				req := newPostRequest(full, http.Header{"Content-Type": {"application/grpc"}, "Te": {"trailers"}, "Grpc-Timeout": {to}}, env.NewReader(env.Script{Data: wire.GRPCFrame(0, pb)}), -1)
+				req.Proto, req.ProtoMajor, req.ProtoMinor = "HTTP/2.0", 2, 0
+				time.Sleep(time.Millisecond)
+				return serveReq(m, req)
+			}}, probe{fmt.Sprintf("grpc-web %s grpc-timeout=%s", sh, to), func(m http.Handler) serveResult {
+				req := newPostRequest(full, http.Header{"Content-Type": {"application/grpc-web+proto"}, "Grpc-Timeout": {to}}, env.NewReader(env.Script{Data: wire.GRPCFrame(0, pb)}), -1)
+				return serveReq(m, req)
+			}})
+		}
+		if sh != "cs" {
+			for k := 1; k <= 4; k++ {
+				k := k
+				probes = append(probes, probe{fmt.Sprintf("websocket %s, the connection fails at its write #%d", sh, k), func(m http.Handler) serveResult {
+					res := doWSPrep(m, "/ws/"+sh, "", nil, append(wsText(js), wsClose(1000, "")...), nil, func(cn *env.Conn, rq *http.Request) *http.Request {
+						cn.FailWriteAt = k
+						return rq
+					})
+					return serveResult{Panicked: res.Panicked, Panic: res.Panic, Code: res.HTTPCode}
+				}})
+			}
+		}
+	}
+	for _, fail := range []bool{false, true} {
+		for _, ic := range []string{"none", "pass"} {
+			m, impl, ilp, slp := e.mux(ic, true)
+			for _, p := range probes {
+				*ilp, *slp = icptLog{}, statsLog{}
+				hs := hScript{RecvN: -1, Replies: []proto.Message{e.t.newRsp("", []byte("r"), 0)}}
+				if fail {
+					hs.Err = status.Error(codes.FailedPrecondition, "handler-failed")
+				}
+				impl.reset(hs)
+				sr := p.run(m)
+				r.Eval(1)
+				key := fmt.Sprintf("early-exit %s handler-fails=%v interceptor=%s", p.name, fail, ic)
+				cs := map[string]any{"kind": "early-exit", "probe": p.name, "handler_fails": fail, "interceptor": ic}
+				ev := strings.Join(slp.events, " ")
+				begins, ends := 0, 0
+				for _, x := range slp.events {
+					switch x {
+					case "Begin":
+						begins++
+					case "End":
+						ends++
+					}
+				}
+				switch {
+				case sr.Panicked:
+					r.Outcome("FAIL:panic")
+					r.Violation(report.Violation{Oracle: "panic", Key: "panic " + key, Case: cs, Note: sr.Panic})
+				case begins > 1 || ends != begins:
+					r.Outcome("FAIL:stats-end-count")
+					if os.Getenv("VERIF_DEBUG") != "" {
+						fmt.Println("DBG", key, "|", ev)
+					}
+					r.Violation(report.Violation{Oracle: "stats-end-count", Key: "stats-end-count " + key, Case: cs, Note: fmt.Sprintf("%d Begin and %d End events: %s", begins, ends, ev)})
+				case ends == 1 && slp.events[len(slp.events)-1] != "End":
+					r.Outcome("FAIL:stats-sequence")
+					r.Violation(report.Violation{Oracle: "stats-sequence", Key: "stats-sequence " + key, Case: cs, Note: "End is not the last event: " + ev})
+				case impl.log.Calls > 1:
+					r.Outcome("FAIL:handler-count")
+					r.Violation(report.Violation{Oracle: "handler-count", Key: "handler-count " + key, Case: cs, Note: fmt.Sprintf("handler ran %d times", impl.log.Calls)})
+				default:
+					r.Outcome(fmt.Sprintf("ok:early-exit:begin=%d", begins))
+					r.Distinct(key)
+				}
+			}
+		}
+	}
+}
+
 func c18Cases(thorough bool) []c18Case {
 	var out []c18Case
 	for _, p := range []string{"http-json", "http-proto", "grpc", "web", "grpc-gzip", "web-gzip", "ws"} {
@@ -552,7 +766,7 @@ func c18Cases(thorough bool) []c18Case {
 
 func runC18(c *Ctx) {
 	r := c.Run
-	r.Rule("protocol{HTTP json, HTTP protobuf, gRPC, gRPC-web, gRPC and gRPC-web with gzip negotiated, WebSocket} × shape{unary, client-, server-, bidi-streaming; and for HTTP transcoding also: URL-only GET (unary and server-streaming), google.api.HttpBody request+response, streamed HttpBody upload, response_body selector} × payload size{0,1,2,3,4,5,6,100} (total message sizes from 0 bytes upward, incl. an empty second message) × handler{ok, fails} × interceptor{none, pass-through, replaces the reply, replaces the error, short-circuits} × stats handler{off,on} × handler metadata{none, header+trailer}; each compared with the same call on a mux without options; distinct = all case parameters")
+	r.Rule("protocol{HTTP json, HTTP protobuf, gRPC, gRPC-web, gRPC and gRPC-web with gzip negotiated, WebSocket} × shape{unary, client-, server-, bidi-streaming; and for HTTP transcoding also: URL-only GET (unary and server-streaming), google.api.HttpBody request+response, streamed HttpBody upload, response_body selector} × payload size{0,1,2,3,4,5,6,100} (total message sizes from 0 bytes upward, incl. an empty second message) × handler{ok, fails} × interceptor{none, pass-through, replaces the reply, replaces the error, short-circuits} × stats handler{off,on} × handler metadata{none, header+trailer}; each compared with the same call on a mux without options; plus response-write faults: the 1st..8th Write on the ResponseWriter fails (and all later ones) on every protocol × shape × outcome × interceptor × sizes {5, 5000} with a stats handler: the handler chain still runs exactly once, Begin first and once, End last and exactly once, no panic; plus early exits (a gzip request body that does not decompress - garbage, empty, cut in the header, cut in the stream; a grpc-timeout that has passed before anything is sent, on gRPC and gRPC-web; a WebSocket whose connection fails at its 1st..4th write) × shape × handler outcome × interceptor: a Begin is followed by exactly one End; distinct = all case parameters")
 	r.Assume("payload events are not demanded on WebSocket (the property lists HTTP transcoding, gRPC and gRPC-web)", "the framing of an error after HTTP stream messages is not demanded")
 	cases := c18Cases(c.Thorough())
 	envs := make([]*c18Env, explore.Workers)
@@ -574,6 +788,8 @@ func runC18(c *Ctx) {
 			r.Sample(*tc)
 		}
 	})
+	c18WriteFaults(c)
+	c18EarlyExits(c)
 }
 
 func replayC18(c *Ctx, v report.Violation) {
@@ -582,7 +798,12 @@ func replayC18(c *Ctx, v report.Violation) {
 		fmt.Println("replay: cannot decode case")
 		return
 	}
-	oracle, note := newC18Env().exec(&tc)
+	oracle, note := "", ""
+	if tc.WriteFault > 0 {
+		oracle, note, _ = newC18Env().execWriteFault(&tc)
+	} else {
+		oracle, note = newC18Env().exec(&tc)
+	}
 	fmt.Printf("replay: %+v -> oracle=%q %s\n", tc, oracle, note)
 	if oracle != "" {
 		c.Run.Violation(report.Violation{Oracle: oracle, Key: v.Key, Case: tc, Note: note})
